@@ -342,7 +342,9 @@ func randSchemaK(r *rand.Rand, keyKinds []string) PSchema {
 	return s
 }
 
-var pU64 = []uint64{0, 1, 127, 128, 16383, 16384, 1<<31 - 1, 1 << 31, 1<<32 - 1, 1 << 32, 1<<63 - 1, 1 << 63, math.MaxUint64, 300, 1 << 21, 1<<35 - 1, 1 << 56}
+var pU64 = []uint64{0, 1, 127, 128, 16383, 16384, 1<<31 - 1, 1 << 31, 1<<32 - 1, 1 << 32, 1<<63 - 1, 1 << 63, math.MaxUint64, 300, 1 << 21, 1<<35 - 1, 1 << 56,
+	// integers that a float64 cannot hold exactly: next to 2^53, and just above 2^63 (the nearest double is 2^63)
+	1<<53 + 1, 1<<63 + 1, 1<<63 + 1024, 1<<63 + 1025, math.MaxUint64 - 1024, 1<<62 + 1}
 
 func randU64(r *rand.Rand) uint64 {
 	if r.Intn(2) == 0 {
